@@ -545,23 +545,22 @@ def check_case(chk, case, res, model_bulk, model_emit, stats):
         # "routes generated for a model, fed back, describe that same model": compare with emit on the same tuples
         if "emit" in res:
             em = dec(res["emit"])
-            seen_ents = [e for e in ents if e["i"] in vis]
-            want_paths = {}
+            present = set(doc_ops(doc))
+            # entries whose requested operations all made it into the document (the others were reported above)
+            seen_ents = [e for e in ents if set(requested_ops([e])) <= present]
             for e in seen_ents:
                 for p in (e["route"], "%s/{%s}" % (e["route"], e["id"])):
                     item = em["paths"].get(p)
-                    if item is not None and any(k in HTTP for k in item):
-                        want_paths[p] = item
-            got_paths = {p: v for p, v in doc["paths"].items()}
-            if got_paths != want_paths:
-                diff = sorted(set(got_paths) ^ set(want_paths)) or [p for p in got_paths if got_paths[p] != want_paths[p]]
-                chk.failure({"region": "bulk", "kind": "roundtrip-paths-differ"}, "paths read back from the generated routes differ from emit.openapi at %s" % diff[:3], replay)
-            want_rb = {k: v for k, v in em["components"]["requestBodies"].items() if any(k == e["name"] + "Body" and "C" in e["crud"] for e in seen_ents)}
-            if doc["components"]["requestBodies"] != want_rb:
-                got_rb = doc["components"]["requestBodies"]
-                bad_keys = sorted(set(got_rb) ^ set(want_rb)) or [k for k in got_rb if got_rb[k] != want_rb[k]]
-                chk.failure({"region": "bulk", "kind": "roundtrip-request-bodies-differ"},
-                            "requestBodies read back from the generated routes differ from emit.openapi at %s: %s vs %s" % (bad_keys[:2], json.dumps(got_rb.get(bad_keys[0]))[:200], json.dumps(want_rb.get(bad_keys[0]))[:200]), replay)
+                    if item is not None and any(k in HTTP for k in item) and doc["paths"].get(p) != item:
+                        chk.failure({"region": "bulk", "kind": "roundtrip-paths-differ"},
+                                    "path item %s read back from the generated routes of %s differs from emit.openapi: %s vs %s" % (
+                                        p, e["name"], json.dumps(doc["paths"].get(p), sort_keys=True)[:300], json.dumps(item, sort_keys=True)[:300]), replay)
+                if "C" in e["crud"]:
+                    k = e["name"] + "Body"
+                    if doc["components"]["requestBodies"].get(k) != em["components"]["requestBodies"].get(k):
+                        chk.failure({"region": "bulk", "kind": "roundtrip-request-bodies-differ"},
+                                    "requestBodies[%s] read back from the generated routes differs from emit.openapi: %s vs %s" % (
+                                        k, json.dumps(doc["components"]["requestBodies"].get(k))[:250], json.dumps(em["components"]["requestBodies"].get(k))[:250]), replay)
             for m, info in zip(models, res["models"]):
                 # the schema the model's routes point to (when present) must be the schema of that model's table
                 want = {k: v for k, v in dec(info["schema"]).items() if not k.startswith("$")}
